@@ -937,9 +937,17 @@ class Table:
         # Read through OUR backend rather than pyarrow's S3 filesystem (#54).
         with data_file_manager.open_parquet_source(data_file.file_path) as src:
             if compute_expr is not None:
-                # pyarrow applies `filters` against all needed columns during the
-                # scan and returns only `columns`, so pushdown is correct here.
-                return pq.read_table(src, columns=columns, filters=compute_expr)
+                # Filter AFTER reading, exactly like the verified branch above.
+                # Handing the expression to the parquet reader (`filters=`) lets
+                # it skip row groups by their statistics, and those ignore NaN
+                # and conflate -0.0/0.0: rows matching `!= x`, `not_in`,
+                # `in [nan]` or `in [0.0]` were dropped with verification off
+                # but returned with it on.
+                table = pq.read_table(src)
+                table = table.filter(compute_expr)
+                if columns is not None:
+                    table = table.select(columns)
+                return table
             return pq.read_table(src, columns=columns)
 
     def _scan_table(
